@@ -28,13 +28,13 @@ variable {σ W : Type}
 
 theorem diteration_nop (v : Variant) (p : Policy σ) (mw : Nat → σ → σ × W)
     (o : Outcome) (ra : Nat) (st : σ) (prev : Option Resp) :
-    (diteration v p Edits.nop mw o ra st (dynOf p) prev).events = (iteration v p mw o ra st prev).1 ∧
-    (diteration v p Edits.nop mw o ra st (dynOf p) prev).dyn = dynOf p ∧
+    (diteration v p Edits.nop mw (fun _ => false) o ra st (dynOf p) prev).events = (iteration v p mw o ra st prev).1 ∧
+    (diteration v p Edits.nop mw (fun _ => false) o ra st (dynOf p) prev).dyn = dynOf p ∧
     (match (iteration v p mw o ra st prev).2 with
-     | .inl f => (diteration v p Edits.nop mw o ra st (dynOf p) prev).out = .inl f
-     | .inr x => (diteration v p Edits.nop mw o ra st (dynOf p) prev).out = .inr x.2 ∧
-        (diteration v p Edits.nop mw o ra st (dynOf p) prev).st = x.1 ∧
-        (diteration v p Edits.nop mw o ra st (dynOf p) prev).ra = ra + 1) := by
+     | .inl f => (diteration v p Edits.nop mw (fun _ => false) o ra st (dynOf p) prev).out = .inl f
+     | .inr x => (diteration v p Edits.nop mw (fun _ => false) o ra st (dynOf p) prev).out = .inr x.2 ∧
+        (diteration v p Edits.nop mw (fun _ => false) o ra st (dynOf p) prev).st = x.1 ∧
+        (diteration v p Edits.nop mw (fun _ => false) o ra st (dynOf p) prev).ra = ra + 1) := by
   unfold diteration iteration
   by_cases ho : o = .beforeErr
   · simp [ho]
@@ -67,8 +67,8 @@ variant, policy, script and start value of `RetryAttempt`.  Every theorem of `Re
 about `loop` is therefore a theorem about `dloop … Edits.nop`. -/
 theorem dyn_refines_static (v : Variant) (p : Policy σ) (mw : Nat → σ → σ × W)
     (script : List Outcome) (ra : Nat) (st : σ) (prev : Option Resp) :
-    (dloop v p Edits.nop mw script ra st (dynOf p) prev).1 = (loop v p mw script ra st prev).1 ∧
-    (dloop v p Edits.nop mw script ra st (dynOf p) prev).2.1 = (loop v p mw script ra st prev).2 := by
+    (dloop v p Edits.nop mw (fun _ => false) script ra st (dynOf p) prev).1 = (loop v p mw script ra st prev).1 ∧
+    (dloop v p Edits.nop mw (fun _ => false) script ra st (dynOf p) prev).2.1 = (loop v p mw script ra st prev).2 := by
   induction script generalizing ra st prev with
   | nil => simp [dloop, loop]
   | cons o rest ih =>
@@ -88,16 +88,24 @@ theorem dyn_refines_static (v : Variant) (p : Policy σ) (mw : Nat → σ → σ
         simp only [ha, h1, h2, hb, hc]
         exact ⟨by rw [(ih (ra + 1) s' pr).1], (ih (ra + 1) s' pr).2⟩
 
-/-- `Request.Do`, first send: the dynamic model is `Req.Retry.run`. -/
+/-- `Request.Do`, first send: the dynamic model is `Req.Retry.run` — for the code without the
+in-loop refusal of C10-8, and for the repaired code whenever that refusal has nothing to refuse
+(with a fixed policy `Do`'s up-front refusal has dealt with every unreplayable body already). -/
 theorem dsend_refines_run (v : Variant) (p : Policy σ) (mw : Nat → σ → σ × W) (unrep : σ → Bool)
-    (script : List Outcome) (st : σ) :
+    (script : List Outcome) (st : σ) (h : v.loopRefuse = false ∨ ∀ s, unrep s = false) :
     (dsend v p Edits.nop mw unrep script 0 st (dynOf p)).1 = (run v p mw (unrep st) script st).events ∧
     (dsend v p Edits.nop mw unrep script 0 st (dynOf p)).2.1 = (run v p mw (unrep st) script st).final := by
+  have hsu : (fun s => v.loopRefuse && unrep s) = fun _ => false := by
+    funext s
+    rcases h with h | h
+    · simp [h]
+    · simp [h s]
   unfold dsend run
-  by_cases h : (p.enabled && p.maxRetries != 0 && unrep st) = true
-  · simp [dynOf, h]
-  · simp only [dynOf] at h ⊢
-    simp only [h, Bool.false_eq_true, ↓reduceIte]
+  rw [hsu]
+  by_cases hc : (p.enabled && p.maxRetries != 0 && unrep st) = true
+  · simp [dynOf, hc]
+  · simp only [dynOf] at hc ⊢
+    simp only [hc, Bool.false_eq_true, ↓reduceIte]
     exact dyn_refines_static v p mw script 0 st none
 
 /-! ## one pass: exactly when does the loop go round again -/
@@ -113,10 +121,11 @@ the specification `wants` it under the policy in force at the pass's check — t
 as the request-level response middleware of THIS pass left it — and no callback of the pass
 (response middleware, condition, hook, interval function) cancelled the context. -/
 theorem dyn_retry_iff (p : Policy σ) (ed : Edits) (mw : Nat → σ → σ × W)
-    (o : Outcome) (ra : Nat) (st : σ) (d : Dyn) (prev : Option Resp) :
-    (∃ x, (diteration R p ed mw o ra st d prev).out = .inr x) ↔
+    (su : σ → Bool) (o : Outcome) (ra : Nat) (st : σ) (d : Dyn) (prev : Option Resp) :
+    (∃ x, (diteration R p ed mw su o ra st d prev).out = .inr x) ↔
       wants (withDyn p (dynAtCheck W R p ed o ra d)) o ra = true ∧
-      (diteration R p ed mw o ra st d prev).dyn.ctxDone = false := by
+      (diteration R p ed mw su o ra st d prev).dyn.ctxDone = false ∧
+      (o ≠ .beforeErr → su (mw ra st).1 = false) := by
   rw [wants_eq, need_withDyn, aborted_withDyn]
   by_cases ho : o = .beforeErr
   · subst ho
@@ -143,6 +152,10 @@ theorem dyn_retry_iff (p : Policy σ) (ed : Edits) (mw : Nat → σ → σ × W)
       · simp [hc]
       · have hc' : cannotRetry (withDyn p d1) o ra = false := by simpa using hc
         simp only [hc', Bool.false_eq_true, ↓reduceIte, Bool.not_false, Bool.true_and]
+        by_cases hsu : su (mw ra st).1 = true
+        · simp [hsu, ho]
+        have hsu' : su (mw ra st).1 = false := by simpa using hsu
+        simp only [hsu', Bool.false_eq_true, ↓reduceIte]
         have hask : (askConds (W := W) p ra o.view (o.errKind.map (ra, ·))).2 = need p o ra := by
           rw [need_eq (W := W)]
           unfold askConds
@@ -152,8 +165,8 @@ theorem dyn_retry_iff (p : Policy σ) (ed : Edits) (mw : Nat → σ → σ × W)
         · rintro ⟨x, hx⟩
           obtain ⟨a, b, -, c⟩ := retryStage_cont _ _ _ _ _ _ _ _ _ _ _ hx
           rw [hask] at c
-          exact ⟨by simp [a, c], b⟩
-        · rintro ⟨h1, h2⟩
+          exact ⟨by simp [a, c], b, fun _ => trivial⟩
+        · rintro ⟨h1, h2, -⟩
           simp only [Bool.and_eq_true, Bool.not_eq_true'] at h1
           unfold retryStage at h2 ⊢
           simp only [hask, h1.1, Bool.true_eq_false, ↓reduceIte] at h2 ⊢
@@ -165,26 +178,39 @@ theorem dyn_retry_iff (p : Policy σ) (ed : Edits) (mw : Nat → σ → σ × W)
 non-negative count that the attempt counter has reached OR PASSED — the count was lowered in
 flight, or the `Request` is sent again with a smaller budget — the pass is the last one. -/
 theorem dyn_past_count_stops (v : Variant) (p : Policy σ) (ed : Edits) (mw : Nat → σ → σ × W)
-    (o : Outcome) (ra : Nat) (st : σ) (d : Dyn) (prev : Option Resp)
+    (su : σ → Bool) (o : Outcome) (ra : Nat) (st : σ) (d : Dyn) (prev : Option Resp)
     (h0 : 0 ≤ (dynAtCheck W v p ed o ra d).maxRetries)
     (h1 : (dynAtCheck W v p ed o ra d).maxRetries ≤ ra) :
-    ∃ f, (diteration v p ed mw o ra st d prev).out = .inl f := by
-  cases hout : (diteration v p ed mw o ra st d prev).out with
+    ∃ f, (diteration v p ed mw su o ra st d prev).out = .inl f := by
+  cases hout : (diteration v p ed mw su o ra st d prev).out with
   | inl f => exact ⟨f, rfl⟩
   | inr x =>
-    obtain ⟨-, -, hc, -⟩ := diteration_cont v p ed mw o ra st d prev x hout
+    obtain ⟨-, -, hc, -⟩ := diteration_cont v p ed mw su o ra st d prev x hout
     simp [cannotRetry, withDyn, h0, h1] at hc
 
 /-- … and so is every pass made without a retry option in force at its check. -/
 theorem dyn_disabled_stops (v : Variant) (p : Policy σ) (ed : Edits) (mw : Nat → σ → σ × W)
-    (o : Outcome) (ra : Nat) (st : σ) (d : Dyn) (prev : Option Resp)
+    (su : σ → Bool) (o : Outcome) (ra : Nat) (st : σ) (d : Dyn) (prev : Option Resp)
     (h : (dynAtCheck W v p ed o ra d).enabled = false) :
-    ∃ f, (diteration v p ed mw o ra st d prev).out = .inl f := by
-  cases hout : (diteration v p ed mw o ra st d prev).out with
+    ∃ f, (diteration v p ed mw su o ra st d prev).out = .inl f := by
+  cases hout : (diteration v p ed mw su o ra st d prev).out with
   | inl f => exact ⟨f, rfl⟩
   | inr x =>
-    obtain ⟨-, -, hc, -⟩ := diteration_cont v p ed mw o ra st d prev x hout
+    obtain ⟨-, -, hc, -⟩ := diteration_cont v p ed mw su o ra st d prev x hout
     simp [cannotRetry, withDyn, h] at hc
+
+/-- **unreplayable_never_retried** (C10-8): a pass whose request carries a body that cannot be
+replayed (`su`) is the last one — whatever the retry option says by then, however it came about
+(set before the call, or by a middleware / hook while the call is in flight). -/
+theorem unreplayable_never_retried (v : Variant) (p : Policy σ) (ed : Edits) (mw : Nat → σ → σ × W)
+    (su : σ → Bool) (o : Outcome) (ra : Nat) (st : σ) (d : Dyn) (prev : Option Resp)
+    (h : su (mw ra st).1 = true) :
+    ∃ f, (diteration v p ed mw su o ra st d prev).out = .inl f := by
+  cases hout : (diteration v p ed mw su o ra st d prev).out with
+  | inl f => exact ⟨f, rfl⟩
+  | inr x =>
+    obtain ⟨-, -, -, -, -, -, hs⟩ := diteration_cont v p ed mw su o ra st d prev x hout
+    rw [h] at hs; cases hs
 
 /-! ## the context, at any point of a pass, for any count -/
 
@@ -222,15 +248,15 @@ theorem dyn_no_attempt_after_context_done (v : Variant) (p : Policy σ) (ed : Ed
     (mw : Nat → σ → σ × W) (o : Outcome) (rest : List Outcome) (ra : Nat) (st : σ) (d : Dyn)
     (prev : Option Resp)
     (h : o = .cancelled ∨ o.ctxDone = true ∨
-      ∃ e ∈ (diteration v p ed mw o ra st d prev).events, (editOf ed e).cancel = true) :
-    iterations (dloop v p ed mw (o :: rest) ra st d prev).1 = 1 ∧
-    (dloop v p ed mw (o :: rest) ra st d prev).2.2.rest = rest := by
-  have hs := diteration_shape v p ed mw o ra st d prev
-  cases hout : (diteration v p ed mw o ra st d prev).out with
-  | inl f => rw [dloop_cons_stop v p ed mw o rest ra st d prev f hout]; exact ⟨hs.2, rfl⟩
+      ∃ e ∈ (diteration v p ed mw su o ra st d prev).events, (editOf ed e).cancel = true) :
+    iterations (dloop v p ed mw su (o :: rest) ra st d prev).1 = 1 ∧
+    (dloop v p ed mw su (o :: rest) ra st d prev).2.2.rest = rest := by
+  have hs := diteration_shape v p ed mw su o ra st d prev
+  cases hout : (diteration v p ed mw su o ra st d prev).out with
+  | inl f => rw [dloop_cons_stop v p ed mw su o rest ra st d prev f hout]; exact ⟨hs.2, rfl⟩
   | inr x =>
     exfalso
-    obtain ⟨-, hoc, -, hcd, hdd, -⟩ := diteration_cont v p ed mw o ra st d prev x hout
+    obtain ⟨-, hoc, -, hcd, hdd, -, -⟩ := diteration_cont v p ed mw su o ra st d prev x hout
     rcases h with h | h | ⟨e, he, hc⟩
     · exact hoc h
     · rw [h] at hcd; cases hcd
@@ -267,18 +293,18 @@ any callback sets in flight lie in `[0, M]`, then a call that starts with `Retry
 most `M − ra + 1` attempts (one, if the counter is already past `M`).  For every variant,
 policy, table of edits, outcome script. -/
 theorem dyn_attempts_bound (M : Int) (hM : 0 ≤ M) (v : Variant) (p : Policy σ) (ed : Edits)
-    (hed : EditsBounded M ed) (mw : Nat → σ → σ × W) (script : List Outcome) (ra : Nat) (st : σ)
-    (d : Dyn) (prev : Option Resp) (hd : Bounded M d) :
-    iterations (dloop v p ed mw script ra st d prev).1 ≤ (M - ra).toNat + 1 := by
+    (hed : EditsBounded M ed) (mw : Nat → σ → σ × W) (su : σ → Bool) (script : List Outcome) (ra : Nat)
+    (st : σ) (d : Dyn) (prev : Option Resp) (hd : Bounded M d) :
+    iterations (dloop v p ed mw su script ra st d prev).1 ≤ (M - ra).toNat + 1 := by
   induction script generalizing ra st d prev with
   | nil => simp [dloop, iterations]
   | cons o rest ih =>
-    have hs := diteration_shape v p ed mw o ra st d prev
-    cases hout : (diteration v p ed mw o ra st d prev).out with
-    | inl f => rw [dloop_cons_stop v p ed mw o rest ra st d prev f hout]; simp only [hs.2]; omega
+    have hs := diteration_shape v p ed mw su o ra st d prev
+    cases hout : (diteration v p ed mw su o ra st d prev).out with
+    | inl f => rw [dloop_cons_stop v p ed mw su o rest ra st d prev f hout]; simp only [hs.2]; omega
     | inr x =>
-      rw [dloop_cons_cont v p ed mw o rest ra st d prev x hout]
-      obtain ⟨-, -, hc, -, -, hra⟩ := diteration_cont v p ed mw o ra st d prev x hout
+      rw [dloop_cons_cont v p ed mw su o rest ra st d prev x hout]
+      obtain ⟨-, -, hc, -, -, hra, -⟩ := diteration_cont v p ed mw su o ra st d prev x hout
       have hb : Bounded M (dynAtCheck W v p ed o ra d) := bounded_editsOf M hM ed hed d _ hd
       have hen : (dynAtCheck W v p ed o ra d).enabled = true := by
         cases h : (dynAtCheck W v p ed o ra d).enabled with
@@ -290,10 +316,10 @@ theorem dyn_attempts_bound (M : Int) (hM : 0 ≤ M) (v : Variant) (p : Policy σ
           Bool.and_eq_false_imp, decide_eq_true_eq, decide_eq_false_iff_not] at hc
         have := hc.2
         omega
-      have hd' : Bounded M (diteration v p ed mw o ra st d prev).dyn := by
+      have hd' : Bounded M (diteration v p ed mw su o ra st d prev).dyn := by
         rw [hs.1]; exact bounded_editsOf M hM ed hed d _ hd
-      have := ih (diteration v p ed mw o ra st d prev).ra (diteration v p ed mw o ra st d prev).st
-        (diteration v p ed mw o ra st d prev).dyn x hd'
+      have := ih (diteration v p ed mw su o ra st d prev).ra (diteration v p ed mw su o ra st d prev).st
+        (diteration v p ed mw su o ra st d prev).dyn x hd'
       rw [hra] at this ⊢
       simp only [iterations_append, hs.2]
       omega
@@ -306,7 +332,7 @@ theorem resend_attempts_bound (M : Int) (hM : 0 ≤ M) (v : Variant) (p : Policy
   unfold dsend
   split
   · simp [iterations]
-  · exact dyn_attempts_bound M hM v p ed hed mw script ra st d none hd
+  · exact dyn_attempts_bound M hM v p ed hed mw _ script ra st d none hd
 
 /-! ## non-vacuity -/
 
@@ -323,10 +349,10 @@ def exLower : Edits :=
 /-- count 5, lowered to 1 during the second retry: the third attempt (already decided) is made,
 then the counter (2) is PAST the count (1) and the loop stops: 3 attempts, not 6 — and not
 "without bound", which is what `RetryAttempt == MaxRetries` would give. -/
-example : iterations (dloop R (exP 5) exLower exMw (List.replicate 9 (.status 503)) 0 () (dynOf (exP 5)) none).1 = 3 := by
+example : iterations (dloop R (exP 5) exLower exMw (fun _ => false) (List.replicate 9 (.status 503)) 0 () (dynOf (exP 5)) none).1 = 3 := by
   decide
 /-- without the edit: 6 attempts -/
-example : iterations (dloop R (exP 5) Edits.nop exMw (List.replicate 9 (.status 503)) 0 () (dynOf (exP 5)) none).1 = 6 := by
+example : iterations (dloop R (exP 5) Edits.nop exMw (fun _ => false) (List.replicate 9 (.status 503)) 0 () (dynOf (exP 5)) none).1 = 6 := by
   decide
 /-- a `Request` that used 2 retries, sent again with a count of 1: one attempt -/
 example : iterations (dsend R (exP 1) Edits.nop exMw (fun _ => false) (List.replicate 9 (.status 503)) 2 () (dynOf (exP 1))).1 = 1 := by
@@ -338,35 +364,46 @@ example : (dsends R (exP 2) Edits.nop exMw (fun _ => false) [[⟨some 1, none, f
 /-- a hook raises the count from 1 to 3 in flight: 4 attempts (`dyn_attempts_bound` with `M = 3`) -/
 example : iterations (dloop R (exP 1)
     { Edits.nop with hook := fun id _ => if id = 0 then ⟨some 3, none, false⟩ else .nop }
-    exMw (List.replicate 9 (.status 503)) 0 () (dynOf (exP 1)) none).1 = 4 := by
+    exMw (fun _ => false) (List.replicate 9 (.status 503)) 0 () (dynOf (exP 1)) none).1 = 4 := by
   decide
 /-- a response middleware enables retries on a request that has no retry option: the default
 rule and the default interval apply from that pass on -/
 example : iterations (dloop R (⟨false, 0, [], [], [fun _ => false], .dflt⟩ : Policy Unit)
     { Edits.nop with after := fun _ _ => ⟨some 2, none, false⟩ }
-    exMw [.transportErr, .transportErr, .transportErr, .transportErr] 0 () ⟨false, 0, .dflt, false⟩ none).1 = 3 := by
+    exMw (fun _ => false) [.transportErr, .transportErr, .transportErr, .transportErr] 0 () ⟨false, 0, .dflt, false⟩ none).1 = 3 := by
   decide
 /-- unbounded count, the hook cancels the context during the third retry: 3 attempts, the
 context's error is returned (`dyn_no_attempt_after_context_done`) -/
 example : iterations (dloop R (exP (-1))
     { Edits.nop with hook := fun id o => if id = 0 ∧ o.attempt = 3 then ⟨none, none, true⟩ else .nop }
-    exMw (List.replicate 9 (.status 503)) 0 () (dynOf (exP (-1))) none).1 = 3 ∧
+    exMw (fun _ => false) (List.replicate 9 (.status 503)) 0 () (dynOf (exP (-1))) none).1 = 3 ∧
     ((dloop R (exP (-1))
     { Edits.nop with hook := fun id o => if id = 0 ∧ o.attempt = 3 then ⟨none, none, true⟩ else .nop }
-    exMw (List.replicate 9 (.status 503)) 0 () (dynOf (exP (-1))) none).2.1).returned =
+    exMw (fun _ => false) (List.replicate 9 (.status 503)) 0 () (dynOf (exP (-1))) none).2.1).returned =
       some (some (2, .status 503), some (2, .waitCtx)) := by
   decide
 /-- … the interval function cancels it during the first retry -/
 example : iterations (dloop R (exP (-1)) { Edits.nop with ivl := fun a _ => ⟨none, none, a == 1⟩ }
-    exMw (List.replicate 9 (.status 503)) 0 () (dynOf (exP (-1))) none).1 = 1 := by
+    exMw (fun _ => false) (List.replicate 9 (.status 503)) 0 () (dynOf (exP (-1))) none).1 = 1 := by
   decide
 /-- a hook installs another interval function: the interval call of the same retry already uses it -/
 example : calls (dloop R (exP 1)
     { Edits.nop with hook := fun id _ => if id = 1 then ⟨none, some (.fixed 7), false⟩ else .nop }
-    exMw [.status 503, .status 200] 0 () (dynOf (exP 1)) none).1 = [.hook 1 1, .hook 0 1, .interval 1] ∧
+    exMw (fun _ => false) [.status 503, .status 200] 0 () (dynOf (exP 1)) none).1 = [.hook 1 1, .hook 0 1, .interval 1] ∧
     (dloop R (exP 1)
     { Edits.nop with hook := fun id _ => if id = 1 then ⟨none, some (.fixed 7), false⟩ else .nop }
-    exMw [.status 503, .status 200] 0 () (dynOf (exP 1)) none).2.2.dyn.interval = .fixed 7 := by
+    exMw (fun _ => false) [.status 503, .status 200] 0 () (dynOf (exP 1)) none).2.2.dyn.interval = .fixed 7 := by
+  decide
+
+/-- C10-8: a request without retry option whose body is a reader; the response middleware
+switches retries on in flight.  As found: three attempts (the 2nd and 3rd with the drained
+reader); repaired: one. -/
+example : iterations (dsend { R with loopRefuse := false } (⟨false, 0, [], [], [fun _ => false], .dflt⟩ : Policy Unit)
+    { Edits.nop with after := fun _ _ => ⟨some 2, none, false⟩ } exMw (fun _ => true)
+    [.transportErr, .transportErr, .transportErr, .transportErr] 0 () ⟨false, 0, .dflt, false⟩).1 = 3 ∧
+  iterations (dsend R (⟨false, 0, [], [], [fun _ => false], .dflt⟩ : Policy Unit)
+    { Edits.nop with after := fun _ _ => ⟨some 2, none, false⟩ } exMw (fun _ => true)
+    [.transportErr, .transportErr, .transportErr, .transportErr] 0 () ⟨false, 0, .dflt, false⟩).1 = 1 := by
   decide
 
 end examples
